@@ -53,6 +53,7 @@ type ScenarioResult struct {
 	Writes  [][]*common.Beacon
 	WriteAt [][]time.Time
 	End     time.Time
+	Signs   []SignRec
 }
 
 func (sc *Scenario) Run(devs []vrt.Dev, labels bool) *ScenarioResult {
@@ -70,7 +71,21 @@ func (sc *Scenario) Run(devs []vrt.Dev, labels bool) *ScenarioResult {
 		until = time.Unix(common.TimeOfRound(k.Period, k.Genesis, sc.StartRound+uint64(sc.Rounds)), 0).Add(-time.Second)
 	}
 	res.End = until
-	res.S = vrt.Run(vrt.Options{Devs: devs, Start: start, MaxSteps: 2000000, Until: until, Labels: labels, EarlyTimers: sc.EarlyTimers, Watchdog: 30 * time.Second}, func() {
+	var mx uint64
+	for _, p := range sc.Prefill {
+		if p > mx {
+			mx = p
+		}
+	}
+	if mx > 0 {
+		k.RefChain(mx) // built outside the run so that its signing is not attributed to the nodes
+	}
+	ownSignHook = func(idx int, msg []byte) {
+		res.Signs = append(res.Signs, SignRec{idx, append([]byte{}, msg...), vrt.VNow()})
+	}
+	defer func() { ownSignHook = nil }()
+	res.S = vrt.Run(vrt.Options{Devs: devs, Start: start, MaxSteps: 2000000, Until: until, Labels: labels, Watchdog: 30 * time.Second}, func() {
+		defer vrt.SetEarlyTimers(sc.EarlyTimers) // only once every node is built and started
 		ctx := context.Background()
 		var script []Fault
 		if len(sc.Scripts) > 0 {
@@ -246,4 +261,116 @@ func sortedRounds(m map[uint64]*common.Beacon) []uint64 {
 	}
 	sort.Slice(l, func(i, j int) bool { return l[i] < l[j] })
 	return l
+}
+
+// JudgeTiming evaluates C04 on a scenario run: an honest node (clock offset given) never creates a partial
+// for round r while its own clock is before the time of r; it refuses partials more than one round ahead of
+// its clock; and with fewer than T fast-clocked/adversarial members no beacon of round r is stored by an
+// honest node before r's time on that node's clock.
+func (sc *Scenario) JudgeTiming(r *ScenarioResult, x *explore.Exec, prefix string, honest []bool) {
+	k := sc.Keys
+	if r.Err != nil || r.S.NativeBlock != "" || r.S.ReplayDivergence != "" || r.Net == nil {
+		return
+	}
+	add := func(fp, f string, a ...any) {
+		x.Violations = append(x.Violations, explore.Violation{Fingerprint: prefix + "/" + fp, Detail: fmt.Sprintf("%s n=%d t=%d offsets=%v script#%d: ", k.SchemeID, k.N, k.T, sc.Offsets, r.Script) + fmt.Sprintf(f, a...)})
+	}
+	chained := k.SchemeID == "pedersen-bls-chained"
+	// digest -> round, from every beacon any node wrote (and the prefilled chain)
+	round := map[string]uint64{}
+	maxRound := sc.StartRound + uint64(sc.Rounds) + 4
+	if chained {
+		known := [][]byte{k.Seed}
+		sigOf := map[uint64][][]byte{0: {k.Seed}}
+		for _, w := range r.Writes {
+			for _, b := range w {
+				sigOf[b.Round] = append(sigOf[b.Round], b.Signature)
+			}
+		}
+		var mx uint64
+		for _, p := range sc.Prefill {
+			if p > mx {
+				mx = p
+			}
+		}
+		if mx > 0 {
+			for _, b := range k.RefChain(mx) {
+				sigOf[b.Round] = append(sigOf[b.Round], b.Signature)
+			}
+		}
+		_ = known
+		for rr, sigs := range sigOf {
+			for _, sg := range sigs {
+				round[string(RefDigest(k.SchemeID, rr+1, sg))] = rr + 1
+			}
+		}
+	} else {
+		for rr := uint64(1); rr <= maxRound; rr++ {
+			round[string(RefDigest(k.SchemeID, rr, nil))] = rr
+		}
+	}
+	offset := func(i int) time.Duration {
+		if i < len(sc.Offsets) {
+			return sc.Offsets[i]
+		}
+		return 0
+	}
+	nodeOfShare := map[int]int{}
+	for i := range r.Net.Nodes {
+		nodeOfShare[k.Shares[i].I] = i
+	}
+	// release = a PartialBeacon call leaving the node (recorded with the sender's own clock)
+	for _, d := range r.Net.Sent {
+		if d.From < 0 || d.From >= len(honest) || !honest[d.From] {
+			continue
+		}
+		local := d.SenderNow.Unix()
+		if t := common.TimeOfRound(k.Period, k.Genesis, d.Round); local < t {
+			add("early-partial", "node %d released its partial for round %d at local time %d, %d s before that round's time %d", d.From, d.Round, local, t-local, t)
+		}
+	}
+	// creation is recorded too (sign hook); a partial created early but never released is reported in the
+	// outcome only
+	early := 0
+	for _, sg := range r.Signs {
+		i, ok := nodeOfShare[sg.ShareIdx]
+		if !ok || !honest[i] {
+			continue
+		}
+		if rr, ok := round[string(sg.Digest)]; ok && sg.At.Add(offset(i)).Unix() < common.TimeOfRound(k.Period, k.Genesis, rr) {
+			early++
+		}
+	}
+	if early > 0 {
+		x.Outcome += fmt.Sprintf(" created-early-unreleased=%d", early)
+	}
+	for _, d := range r.Net.Ledger {
+		if d.To < 0 || !honest[d.To] {
+			continue
+		}
+		local := d.SenderNow.Add(offset(d.To)).Unix()
+		cur := common.CurrentRound(local, k.Period, k.Genesis)
+		if d.Round > cur+1 && d.ReceiverOK {
+			add("future-partial-accepted", "node %d accepted a partial for round %d while its clock was in round %d", d.To, d.Round, cur)
+		}
+	}
+	fast := 0
+	for i := range r.Net.Nodes {
+		if !honest[i] {
+			fast++
+		}
+	}
+	if fast < k.T {
+		for i := range r.Net.Nodes {
+			if !honest[i] {
+				continue
+			}
+			for j, b := range r.Writes[i] {
+				local := r.WriteAt[i][j].Add(offset(i)).Unix()
+				if t := common.TimeOfRound(k.Period, k.Genesis, b.Round); b.Round > 0 && local < t {
+					add("early-beacon", "node %d stored round %d at local time %d, before that round's time %d, with only %d fast-clocked members (threshold %d)", i, b.Round, local, t, fast, k.T)
+				}
+			}
+		}
+	}
 }
